@@ -12,7 +12,7 @@ RULE = ("valid show files (repository fixtures and generated files with trajecto
 EXPLANATION = ("model and implementation agree on success/failure of each route and on the number of block bytes; harness token "
                "'same' = block bytes and all observations (queries before and after clear) identical between the routes; "
                "'MISMATCH' / 'blockdiff' / 'diff@' are violations; error codes may differ only as EREAD vs ENOENT")
-ASSUMPTIONS = ["descriptor route exercised through memfd_create", "the bounding box of degree-7 axes (finding D13) is excluded from the battery"]
+ASSUMPTIONS = ["descriptor route exercised through memfd_create (also duplicated onto descriptor 0)", "the bounding box of degree-7 axes (finding D13) is excluded from the battery"]
 
 
 def cases(rng, tier):
@@ -20,6 +20,12 @@ def cases(rng, tier):
         h = hexs(data)
         for kind in ("traj", "light", "yaw", "rth"):
             yield ("routes %s %s" % (kind, h), klass)
+    # the show on descriptor 0 (a program started with the show as its standard input): as valid as any other descriptor
+    k = 0
+    for klass, data in filegen.corpus(rng, tier):
+        k += 1
+        if k % 9 == 0:
+            yield ("routes %s %s fd0" % (("traj", "light", "yaw", "rth")[(k // 9) % 4], hexs(data)), "descriptor-0")
 
 
 def compare(case, om, oi):
